@@ -9,7 +9,7 @@ from common import Driver, DriverFailure
 
 LEVEL = "proof"
 MANIFEST = dict(
-    text="Lean 4 invariants over a transition system of GeckoAsyncUdpProtocol.get for any number of concurrent callers, proved for every reachable state by  Session 4: an arrival-order monitor (no later caller is transmitted while an earlier caller has not completed). The lock shape of get() is a theorem over its regenerated suspension skeleton (get_lock_shape: every transmission while the caller holds the lock, the lock taken once per call, for every trace)."
+    text="Lean 4 invariants over a transition system of GeckoAsyncUdpProtocol.get for any number of concurrent callers, proved for every reachable state by  Session 4: an arrival-order monitor (no later caller is transmitted while an earlier caller has not completed). The lock shape of get() is a theorem over its regenerated suspension skeleton (get_lock_shape: every transmission while the caller holds the lock, the lock taken once per call, for every trace). Also the multi-segment request (GeckoAsyncStructure.get): every attempt consumes retry budget in both gets (every_attempt_consumes_budget over the regenerated skeletons) and the partial-loss pattern (a middle segment lost every time, the final one arriving) is driven on the real code."
          "induction over action sequences (all arrival times, wake-up orders, reply loss/delay patterns, stalls): at most one caller inside an exchange and it is the lock "
          "holder (at_most_one_in_flight), datagrams per call <= retry count with the waiting handler built at the latest transmission (sends_bounded), callers served in "
          "call order (fifo: acquired ++ parked = called), a reply is returned only by the caller's own poll finding it (reply_was_delivered); and, without event-loop stalls, "
@@ -354,6 +354,33 @@ def search_gate(ctx):
     ctx.cov["gate_checks"] = out
 
 
+def search_struct_get(ctx):
+    """the multi-segment request (GeckoAsyncStructure.get: one STATU answered by a chain of STATV segments, under the same
+    connection lock): attempts that end WITHOUT a timeout - a middle segment lost every time, the final one arriving out of
+    sequence - count against the retry budget like any other, and the call returns (so the callers queued behind it complete)"""
+    from props import c01
+    rng = ctx.rng
+    spa = bytes(rng.randrange(256) for _ in range(1024))
+    cli = bytes(1024)
+    n = 0
+    for (s0, ln) in ((0, 117), (256, 301), (100, 200), (0, 1024)) if not ctx.quick else ((0, 117), (256, 301)):
+        ch = c01.real_chain(spa, s0, ln)
+        for k in sorted({1, len(ch) // 2, len(ch) - 2}):
+            if not (1 <= k <= len(ch) - 2):
+                continue
+            for retry in (1, 3, 10):
+                toks = [f"s{i}" for i in range(len(ch)) if i != k] * (retry + 5)
+                res = c01.run_async(spa, cli, s0, ln, retry, toks, ch)
+                n += 1
+                inp = {"kind": "struct-get", "start": s0, "len": ln, "retry": retry, "lost_segment": k, "attempts_fed": retry + 5}
+                if res["ok"] is not False or res["sends"] > retry:
+                    ctx.violation("struct-get:attempt-ended-without-timeout-not-counted", inp,
+                                  f"at most {retry} STATU transmissions, then the call returns False",
+                                  {"result": str(res["ok"])[:80], "transmissions": res["sends"]})
+    ctx.count("evaluations", n)
+    ctx.cov["struct_get_partial_loss_runs"] = n
+
+
 def run(ctx):
     st = translate.run(["Skeletons"])
     ctx.cov["translator"] = st
@@ -402,6 +429,7 @@ def run(ctx):
             ctx.obligation_broken("correspondence:request-trace-not-accepted-by-model", {"line": all_lines[i], "verdict": o, "context": all_lines[max(0, i - 8):i + 1], "scenario": src})
         ctx.sample({"validator_summary": [o for o in out if o.startswith("end")][:3]})
     search_gate(ctx)
+    search_struct_get(ctx)
     ctx.cov["distinct_nontrivial"] = len(nontrivial)
     ctx.cov["rule"] = ("each run = 1..8 (thorough ..20) concurrent callers of the real protocol.get with seeded arrival times, retry in {1,2,3,10}, timeout in {0.35,1.05,4.05} s (+0.5 ms in the real handler, so that no floating-point tie on a whole millisecond decides a timeout; the model's strict > on whole ms is then exact), "
                        "pause in {0,0.1,0.5,2} s and per-attempt reply scripts (prompt / around the poll interval / late / never / wrong verb), seeded shuffle of ready callbacks; "
@@ -442,6 +470,8 @@ def replay(inp):
             c["replies"] = [tuple(r) if isinstance(r, list) else r for r in c["replies"]]
         res = _run(sc, inp["seed"], inp["fair"])
         monitors(ctx, sc, res, inp["fair"], inp)
+    elif inp.get("kind") == "struct-get":
+        search_struct_get(ctx)
     else:
         search_gate(ctx)
     return bool(ctx.violations), ctx.violations[0]["observed"] if ctx.violations else "ok"
